@@ -39,9 +39,11 @@ def DecodeBitMasks(M, targs):
     return (wmask, tmask)
 
 
-def ExtendReg(r, etype, shift=0):
+def ExtendReg(r, etype, shift=0, N=None):
+    # extend (part of) register r to N bits (default: the size of r)
     assert shift >= 0 and shift <= 4
-    N = r.size
+    if N is None:
+        N = r.size
     signed = True if etype & 4 == 0 else False
     l = 8 << (etype & 3)
     l = min(l, N - shift)
@@ -1110,7 +1112,8 @@ def A64_load_store(obj, size, opc, Rm, option, S, Rn, Rt):
     obj.shift = obj.scale if S == 1 else 0
     obj.n = env.Xregs[Rn]
     m = sp2z(env.Wregs[Rm]) if option & 1 == 0 else sp2z(env.Xregs[Rm])
-    obj.m = ExtendReg(m, option, obj.shift)
+    # the offset register (Wm or Xm) is extended to the 64-bit address size
+    obj.m = ExtendReg(m, option, obj.shift, 64)
     if opc & 2 == 0:
         obj.regsize = 64 if size == 0b11 else 32
         obj.signed = False
